@@ -124,6 +124,10 @@ def gen_program(rng, form=None):
         ret_src, ret_val = lit(v), v
     echo = ", ".join("%s=$%s" % (nm, nm) for nm in names)
     callee = 'flow callee %s\n  $x = "callee-local"\n  send Echo(%s)\n  match Release()\n  $x = "callee-local-2"\n' % (sig, (echo + ", " if echo else "") + "x=$x")
+    if names and rk != "param" and rng.random() < 0.5:
+        # the callee assigns to its own parameters: they are its locals; the NEXT instance (activated restart) must be bound
+        # to the caller's arguments / declared defaults again
+        callee += "".join('  $%s = "reassigned-%s"\n' % (nm, nm) for nm in names if rng.random() < 0.7)
     if ret_src is not None:
         callee += "  return %s\n" % ret_src
     cvs = "".join("  $%s = %s\n" % (k, v[0] if isinstance(v, tuple) else lit(v)) for k, v in caller_vars.items())
